@@ -48,6 +48,9 @@ func main() {
 	case "selftest-determinism":
 		selftestDeterminism(os.Args[2:])
 		return
+	case "debug":
+		debugCmd(os.Args[2:])
+		return
 	case "manifest":
 		writeManifest()
 		return
@@ -683,7 +686,7 @@ func handleViolation(bi *buildInfo, p *Prop, tier string, seed uint64, v *RunRes
 	r1, err1 := replayOnce(bi, p, tier, seed, v.Run, best, true)
 	r2, err2 := replayOnce(bi, p, tier, seed, v.Run, best, true)
 	if err1 != nil || err2 != nil || !sameClass(r1.Violation, v.Violation) || !sameClass(r2.Violation, v.Violation) || r1.Fingerprint != r2.Fingerprint {
-		infra("minimised replay of %s diverged between two fresh processes (%v %v)", p.ID, err1, err2)
+		infra("minimised replay of %s (seed %d run %d, clause %s: %v) diverged between two fresh processes (%v %v)", p.ID, seed, v.Run, v.Violation.Clause, v.Violation.Detail, err1, err2)
 	}
 	rf := ReplayFile{Property: p.ID, Harness: p.Harness, Tier: tier, Seed: seed, Run: v.Run, Params: p.Params, MaxSteps: p.MaxSteps,
 		Choices: best, Violation: r1.Violation, Fingerprint: r1.Fingerprint, MinimisedFrom: len(orig), Faults: r1.Faults, Log: r1.Log,
